@@ -131,3 +131,42 @@ func TestContainerShortSiblingBoxCR3(t *testing.T) {
 		}
 	}
 }
+
+// Recorded, not repaired (C06 TOPWALK): imagemeta.Decode reads exactly one top-level box after ftyp, so a CR3 whose
+// moov box is preceded by another box (here: free) yields no metadata; DecodeCR3 reads two and tolerates one.
+func TestRecordedCR3BoxBeforeMoov(t *testing.T) {
+	payload := cStream(8, []cEnt{cASCII(0x010f, "Canon"), cASCII(0x0110, "Canon EOS R6"), cASCII(0x0131, "SoftwareName 1.0")})
+	plain := cCR3(payload)
+	// insert a free box between ftyp and moov
+	ftypLen := int(binary.BigEndian.Uint32(plain[:4]))
+	withFree := append(append(append([]byte{}, plain[:ftypLen]...), cBox("free", make([]byte, 16))...), plain[ftypLen:]...)
+	e0, err0 := imagemeta.Decode(bytes.NewReader(plain))
+	e1, err1 := imagemeta.Decode(bytes.NewReader(withFree))
+	if err0 != nil || e0.Software != "SoftwareName 1.0" {
+		t.Fatalf("reference CR3: err=%v software=%q", err0, e0.Software)
+	}
+	if err1 != nil || e1.Software != e0.Software {
+		t.Errorf("CR3 with a free box before moov: err=%v software=%q, want %q", err1, e1.Software, e0.Software)
+	}
+}
+
+// Recorded, not repaired (C06 HEIFSCAN): the HEIF entry points find the Exif payload by searching the file for a
+// TIFF signature, so the bytes "II*\x00" in an earlier box are taken for the header.
+func TestRecordedHeifSignatureInEarlierBox(t *testing.T) {
+	payload := cStream(8, []cEnt{cASCII(0x010f, "Canon"), cASCII(0x0131, "SoftwareName 1.0")})
+	payload = append(payload, make([]byte, 64)...)
+	mk := func(decoy []byte) []byte {
+		out := cBox("ftyp", []byte("heic\x00\x00\x00\x00heicmif1"))
+		out = append(out, cBox("free", decoy)...)
+		out = append(out, cBox("mdat", append([]byte("Exif\x00\x00"), payload...))...)
+		return out
+	}
+	e0, err0 := imagemeta.DecodeHeif(bytes.NewReader(mk(make([]byte, 40))))
+	e1, err1 := imagemeta.DecodeHeif(bytes.NewReader(mk(append([]byte("II*\x00\x08\x00\x00\x00\x00\x00"), make([]byte, 30)...))))
+	if err0 != nil || e0.Software != "SoftwareName 1.0" {
+		t.Fatalf("reference HEIF: err=%v software=%q", err0, e0.Software)
+	}
+	if err1 != nil || e1.Software != e0.Software {
+		t.Errorf("HEIF with the bytes II*\\0 in an earlier box: err=%v software=%q, want %q", err1, e1.Software, e0.Software)
+	}
+}
